@@ -15,6 +15,9 @@ import (
 )
 
 func gen(t *rapid.T) peng.Case {
+	if rapid.IntRange(0, 7).Draw(t, "cancelOnReturnShape") == 0 {
+		return genCancelOnReturn(t)
+	}
 	c := peng.GenProgram(t, peng.Bias{MinN: 1, MaxN: 4, MaxThreads: 6, MinOps: 4, MaxOps: 40, MaxMgrs: 1, Kinds: scen.AllKinds, Barriers: true,
 		Cancel: true, MaxSleepUs: 3000, HoldNoRelUs: 6000, SlowQFUs: 20000, StreamItems: 6, AwaitProb: 3, ErrorNodes: true, FullQuorum: true,
 		ReleaseModes: []string{"", "", "early"}})
@@ -75,12 +78,64 @@ func gen(t *rapid.T) peng.Case {
 	return c
 }
 
+// genCancelOnReturn: the everyday shape - one goroutine, one call after the other, every call under
+// a context of its own that is cancelled as soon as the call has returned (defer cancel()). Servers
+// answer at once, nothing fails, nothing is abandoned: every call must be answered. The schedule
+// jitter spreads the sender's and the watcher's steps apart.
+func genCancelOnReturn(t *rapid.T) peng.Case {
+	n := rapid.IntRange(1, 2).Draw(t, "n")
+	c := peng.Case{N: n, Threads: 1, Probe: true}
+	c.Mgrs = []scen.MgrOpts{{SendBuffer: rapid.SampledFrom([]uint{0, 0, 2}).Draw(t, "sendBuffer"), DialTimeoutMs: 50, BackoffMs: 20}}
+	c.Configs = [][]int{seqInts(n)}
+	k := rapid.IntRange(20, 120).Draw(t, "ncalls")
+	for i := 0; i < k; i++ {
+		kind := rapid.SampledFrom([]string{"RPC", "RPC", "QC", "QCCustom"}).Draw(t, fmt.Sprintf("kind%d", i))
+		op := peng.Op{Kind: "call", Thread: 0, CancelOnReturn: true}
+		op.Call = scen.CallSpec{Kind: kind, Node: rapid.IntRange(0, n-1).Draw(t, fmt.Sprintf("node%d", i)), Ctx: "cancel", Script: scen.QScript{Kind: "threshold", Q: n}}
+		c.Ops = append(c.Ops, op)
+	}
+	c.Jitter = &peng.Jitter{Seed: rapid.Uint64().Draw(t, "jitterSeed"), Gosched: 3000,
+		Sleep: rapid.SampledFrom([]uint32{150, 600, 2000}).Draw(t, "jitterSleep"), MaxSleepUs: rapid.SampledFrom([]int{200, 1000}).Draw(t, "jitterMaxSleepUs")}
+	return c
+}
+
+func seqInts(n int) []int {
+	s := make([]int, n)
+	for i := range s {
+		s[i] = i
+	}
+	return s
+}
+
+// cancelOnReturnShape reports whether the case is of the shape genCancelOnReturn draws.
+func cancelOnReturnShape(c peng.Case) bool {
+	if len(c.Ops) == 0 {
+		return false
+	}
+	for _, op := range c.Ops {
+		if op.Kind != "call" || !op.CancelOnReturn {
+			return false
+		}
+	}
+	return true
+}
+
 func run(c peng.Case) vt.Verdict {
 	r := peng.Run(c, peng.Hooks{})
 	if r.SetupErr != "" {
 		return vt.Verdict{OK: true, Inconclusive: true, Msg: r.SetupErr, Classes: []string{"setup-error"}}
 	}
 	var classes []string
+	if cancelOnReturnShape(c) {
+		classes = append(classes, "sequential-calls-cancelled-on-return")
+		// a later call is a call like any other: it is delivered and answered
+		for _, e := range r.Events {
+			if e.Kind == "return" && e.Outcome == "error" && !e.IsCanc {
+				return vt.Verdict{OK: false, Key: "C09/later-call-fails/contexts-cancelled-on-return", History: r.Events, Classes: classes,
+					Msg: fmt.Sprintf("one goroutine makes %d calls in a row, each under a context of its own that it cancels as soon as the call has returned; servers answer at once and nothing fails, but call %d (%s) ended with %q", len(c.Ops), e.Call, e.Method, e.ErrText)}
+			}
+		}
+	}
 	// measured non-triviality
 	accepts := map[int]int{}
 	slowqf, abandoned, cancelled := false, false, false
